@@ -10,25 +10,25 @@ _NOTE_MODEL = ("The model (model.rs, ~450 lines: BTreeSet/BTreeMap/enum term alg
 
 reg("C01", [mon("rt", "mon_lattices")],
     technique="runtime monitor: real Merge impls of ~57 lattice types driven over bounded-exhaustive + random values, results judged by an independent model (revealed contents) and by the crate's ==",
-    text="For every self-mergeable lattice type of the table (SetUnion, MapUnion over 5 value families, Max/Min over 5 scalars, WithBot/WithTop and their nestings, Pair, DomPair with total key, VecUnion, UnionFind, Conflict, (), three #[derive(Lattice)] structs; HashMap/BTreeMap/HashSet/BTreeSet backings) idempotence on all singles, commutativity on all pairs and associativity on the full cube of a 26 (thorough 60) value list plus random triples of a 120 (400) value list; plus order-independence/idempotence of merging read-only representations (~45 (Self,Other) pairs). Point: equal merge returns false, unequal merge must panic. DomPair over a partially ordered key is only recorded.",
+    text="For every self-mergeable lattice type of the table (SetUnion, MapUnion over 5 value families, Max/Min over 5 scalars, WithBot/WithTop and their nestings, Pair, DomPair with total key, VecUnion, UnionFind, Conflict, (), three #[derive(Lattice)] structs; HashMap/BTreeMap/HashSet/BTreeSet backings) idempotence on all singles, commutativity on all pairs and associativity on the full cube of a 36 (thorough 80) value list plus 4 000 (100 000) random triples of a 200 (400) value list; plus order-independence/idempotence of merging read-only representations (~45 (Self,Other) pairs). Point: equal merge returns false, unequal merge must panic. DomPair over a partially ordered key is only recorded.",
     note=_NOTE_MODEL)
 
 reg("C02", [mon("rt", "mon_lattices")],
     technique="runtime monitor: returned changed-flag of every Merge<Other> impl compared with model(before) vs model(after), result compared with the model join",
-    text="For ~135 (Self, Other) pairs incl. ~90 cross-representation ones, all pairs of a 120 (thorough 400) value list (sampled above 6 000 / 160 000 per pair): flag == (model(after) != model(before)), model(after) == model(before) join model(other), flag false => other <= before. Independent of partial_cmp.",
+    text="For ~135 (Self, Other) pairs incl. ~90 cross-representation ones, all pairs of a 200 (thorough 400) value list (sampled above 20 000 / 160 000 per pair): flag == (model(after) != model(before)), model(after) == model(before) join model(other), flag false => other <= before. Independent of partial_cmp.",
     note=_NOTE_MODEL)
 
 reg("C03", [mon("rt", "mon_lattices")],
     technique="runtime monitor: partial_cmp / == / operators / naive_cmp / is_bot / is_top / Default of every (Self, Other) impl pair compared with the model order",
-    text="For ~330 (Self, Other) comparison pairs (every cross-representation PartialOrd/PartialEq impl of the table) all pairs of a 120 (400) value list (sampled above 4 000 / 160 000): partial_cmp, ==, <=, <, >=, >, != equal the model order; naive_cmp == partial_cmp == model; partial-order laws on all triples of a 30 (70) value list for 45 types; is_bot / is_top equal the model's least / greatest element for ~100 types; Default is bottom for ~70 types. A panic is a violation.",
+    text="For ~330 (Self, Other) comparison pairs (every cross-representation PartialOrd/PartialEq impl of the table) all pairs of a 200 (400) value list (sampled above 12 000 / 160 000): partial_cmp, ==, <=, <, >=, >, != equal the model order; naive_cmp == partial_cmp == model; partial-order laws on all triples of a 30 (70) value list for 45 types; is_bot / is_top equal the model's least / greatest element for ~100 types; Default is bottom for ~70 types. A panic is a violation.",
     note=_NOTE_MODEL + " is_top is judged against the abstract lattice over an unbounded element domain (sets/maps/vectors/partitions have no top).")
 
 reg("C04", [mon("rt", "mon_lattices")],
     technique="runtime monitor: histories of merge/union/LatticeFrom applied in lock-step to all representations of a family, revealed contents and union-find same-matrix compared with a model state after every step; rho-shaped parent maps in watchdogged child processes",
-    text="26 families; per family ~500 enumerated 4-step histories and 250 (thorough 6 000) random histories of up to 12 (40) steps: operand in any representation (incl. read-only), LatticeFrom between self representations, round trips through read-only representations. Union-find: every history of 5 (6) union / merge-an-atom steps over 4 items (2 orientation variants) with the full same(a,b) matrix judged after each step against BFS components, read-only representations queried at the end; 8 (16) rho-shaped parent-map cases run 3x each in child processes under a 4 s (10 s) watchdog, reported only on 3/3 reproduction.",
+    text="26 families; per family ~500 enumerated 4-step histories and 800 (thorough 8 000) random histories of up to 12 (40) steps: operand in any representation (incl. read-only), LatticeFrom between self representations, round trips through read-only representations. Union-find: every history of 5 (6) union / merge-an-atom steps over 4 items (2 orientation variants) with the full same(a,b) matrix judged after each step against BFS components, read-only representations queried at the end; 8 (16) rho-shaped parent-map cases run 3x each in child processes under an 8 s (20 s) watchdog, reported only on 3/3 reproduction.",
     note=_NOTE_MODEL + " A hang is recognised by wall-clock in the child only; the parent verdict requires 3/3 agreement, otherwise the run is inconclusive.")
 
 reg("C06", [mon("rt", "mon_lattices")],
     technique="runtime monitor: atomize() of every Atomize type, atoms judged by the model (non-bottom, empty iff bottom, re-merge into Default reproduces the model value)",
-    text="19 Atomize types (SetUnion, MapUnion incl. nested MapUnion and WithBot values, WithBot, WithTop, their nestings, UnionFind, ()) x a 300 (thorough 3 000) value list: no atom is bottom (crate is_bot and model), no atoms <=> bottom, merging the atoms into Default reveals the original model value.",
+    text="19 Atomize types (SetUnion, MapUnion incl. nested MapUnion and WithBot values, WithBot, WithTop, their nestings, UnionFind, ()) x a value list of up to 1 000 (thorough 10 000): no atom is bottom (crate is_bot and model), no atoms <=> bottom, merging the atoms into Default reveals the original model value.",
     note=_NOTE_MODEL)
